@@ -1452,3 +1452,20 @@ Example C11_all_handles_parsed_ex :
   run_text fixed (IRelaxed s0) ops = Ok s1 /\
   sfield s1 = Ok f1.
 Proof. vm_compute. repeat split; reflexivity. Qed.
+
+(* Finding c11-replace-live-operand-moved (code as it is): replace with an operand that is a live
+   handle of the field moves it out of its place ("a, c" -> "c, "; the list model has "c, c");
+   push / insert copy such an operand. The handle theorems above take operands built by the
+   constructors, the builder or a parser (ENew / RNew), which is exactly what excludes this. *)
+Theorem C11_replace_live_operand_witness :
+  run_text fixed (IStrict [97; 44; 32; 99]%N) [OGetEntry 1 1; OGetRel 2 1 0; OGetEntry 0 0; OEReplace 0 0 2] = Ok [99; 44; 32]%N /\
+  run_text fixed (IStrict [97; 44; 32; 99]%N) [OGetEntry 1 1; OReplace 0 1] = Ok [99; 44; 32]%N /\
+  run_text fixed (IStrict [97; 44; 32; 99]%N) [OGetEntry 1 1; OGetRel 2 1 0; OGetEntry 0 0; OEPush 0 2] = Ok [97; 32; 124; 32; 99; 44; 32; 99]%N /\
+  run_text fixed (IStrict [97; 44; 32; 99]%N) [OGetEntry 1 1; OPush 1] = Ok [97; 44; 32; 99; 44; 32; 99]%N.
+Proof. exact (conj replace_live_relation_moved (conj replace_live_entry_moved (conj push_live_relation_copied push_live_entry_copied))). Qed.
+Check C11_replace_live_operand_witness :
+  run_text fixed (IStrict [97; 44; 32; 99]%N) [OGetEntry 1 1; OGetRel 2 1 0; OGetEntry 0 0; OEReplace 0 0 2] = Ok [99; 44; 32]%N /\
+  run_text fixed (IStrict [97; 44; 32; 99]%N) [OGetEntry 1 1; OReplace 0 1] = Ok [99; 44; 32]%N /\
+  run_text fixed (IStrict [97; 44; 32; 99]%N) [OGetEntry 1 1; OGetRel 2 1 0; OGetEntry 0 0; OEPush 0 2] = Ok [97; 32; 124; 32; 99; 44; 32; 99]%N /\
+  run_text fixed (IStrict [97; 44; 32; 99]%N) [OGetEntry 1 1; OPush 1] = Ok [97; 44; 32; 99; 44; 32; 99]%N.
+Print Assumptions C11_replace_live_operand_witness.
